@@ -101,7 +101,43 @@ func main() {
 }
 
 // propSet lists the properties a contract carries clauses for.
+// ownsUntagged: does property p own the untagged obligation of the given kind in this function?  A function that
+// belongs to p through an explicit props clause or a tagged clause is owned entirely; one that belongs to it only
+// through "fileprops p:kinds" contributes the listed kinds.
+func (fc *FuncContract) ownsUntagged(p, kind string) bool {
+	if fc == nil {
+		return true
+	}
+	for _, q := range fc.fullPropSet() {
+		if q == p {
+			return true
+		}
+	}
+	for _, k := range fc.PropKinds[p] {
+		if strings.HasPrefix(kind, k) {
+			return true
+		}
+	}
+	return len(fc.PropKinds[p]) == 0
+}
+
 func (fc *FuncContract) propSet() []string {
+	out := fc.fullPropSet()
+	have := map[string]bool{}
+	for _, p := range out {
+		have[p] = true
+	}
+	var extra []string
+	for p := range fc.PropKinds {
+		if !have[p] {
+			extra = append(extra, p)
+		}
+	}
+	sort.Strings(extra)
+	return append(out, extra...)
+}
+
+func (fc *FuncContract) fullPropSet() []string {
 	set := map[string]bool{}
 	for _, p := range fc.Props {
 		set[p] = true
